@@ -190,7 +190,7 @@ func (r *Run) Oracle() []Finding {
 	for _, x := range e.Errs {
 		add("harness", "%s", x)
 	}
-	if r.Root == nil || r.After == nil {
+	if r.Root == nil || r.After == nil || len(e.Inconclusive) > 0 {
 		return fs
 	}
 	ag := sc.Init
